@@ -43,7 +43,7 @@ package proxy
 // proxy.Func: a guard for the function funcDef denotes (or points to), not yet applied, whose entry jump goes
 // through the func value of proxyFunc; a pointer placeholder is re-pointed at the relocated prologue; on any
 // error nothing stays diverted.
-//@ pure func func_target(funcDef interface{}) reflect.Value = value_of(rv_content(ite(rv_kind(value_of(funcDef)) == reflect.Ptr, rv_elem(value_of(funcDef)), value_of(funcDef))))
+//@ pure func func_target(funcDef interface{}) reflect.Value = ite(rt_kind(rt_of(typeof(funcDef))) == reflect.Ptr, value_of(varval[rv_pointer(value_of(funcDef))]), value_of(funcDef))
 //@ func Func
 //@   props C01 C02 C03 C13
 //@   requires table: patch.table_inv()
